@@ -29,7 +29,9 @@ type c11Res struct {
 }
 
 func c11Setup(state string) (uint64, []fsx.Op) {
-	pop := []fsx.Op{{K: "CREATE", H: "root", N: "a"}, {K: "WRITE", H: "root/a", Off: 0, Cnt: 9000, Pat: 0x61, Stable: 2}, {K: "MKDIR", H: "root", N: "d"}, {K: "CREATE", H: "root/d", N: "x"},
+	// (the first objects land in recycled inodes: their generations differ from the root's)
+	pop := []fsx.Op{{K: "MKDIR", H: "root", N: "t0"}, {K: "CREATE", H: "root", N: "t1"}, {K: "RMDIR", H: "root", N: "t0"}, {K: "REMOVE", H: "root", N: "t1"}, {K: "RESTART"},
+		{K: "MKDIR", H: "root", N: "d"}, {K: "CREATE", H: "root", N: "a"}, {K: "WRITE", H: "root/a", Off: 0, Cnt: 9000, Pat: 0x61, Stable: 2}, {K: "CREATE", H: "root/d", N: "x"},
 		{K: "SYMLINK", H: "root", N: "s", Target: "a"}, {K: "CREATE", H: "root", N: "gone"}, {K: "REMOVE", H: "root", N: "gone"}}
 	switch state {
 	case "populated":
@@ -62,7 +64,8 @@ func c11Handles(w *World) [][]byte {
 
 var c11Names = []string{"", ".", "..", "a", "d", "new", nameOfLen(111, 'l'), nameOfLen(112, 'l'), nameOfLen(113, 'l'), nameOfLen(255, 'l'), nameOfLen(256, 'l'), nameOfLen(4096, 'l')}
 var c11NamesShort = []string{"", ".", "..", "a", "d", "new", nameOfLen(112, 'l'), nameOfLen(300, 'l')}
-var c11Offsets = []uint64{0, 1, 4095, 4096, 1 << 32, maxFile - 1, maxFile, 1 << 63, 1<<64 - 4096, 1<<64 - 10, 1<<64 - 1}
+var c11BaseOffsets = []uint64{0, 1, 4095, 4096, 1 << 32, maxFile - 1, maxFile, 1 << 63, 1<<64 - 4096, 1<<64 - 10, 1<<64 - 1}
+var c11Offsets = c11BaseOffsets
 
 const c11MaxWrite = 4096*511 - 10*4096
 
@@ -219,6 +222,11 @@ func c11Job(raw json.RawMessage) (interface{}, error) {
 				w.Do(o)
 			}
 			hs := c11Handles(w)
+			// the announced maximum file size belongs to the offset domain (it may differ from what the block map can address)
+			if fi := fsx.Exec(w.Srv, fsx.Op{K: "FSINFO"}, fsx.RootFH(), nil); fi.OK() {
+				m := fi.Info["maxfilesize"]
+				c11Offsets = append(append([]uint64{}, c11BaseOffsets...), m-4096, m-1, m)
+			}
 			calls := c11Calls(a.Proc, hs[a.HIdx], hs)
 			total = len(calls)
 			for i := start; i < len(calls); i++ {
